@@ -756,6 +756,22 @@ static std::string run_gencorpus(const CaseSpec &cs) {
   static std::map<std::string, int> per_class;
   static const int per_class_limit = atoi(env("VERIF_CORPUS_PER_CLASS", "2"));
   static const size_t max_bytes = static_cast<size_t>(atoi(env("VERIF_CORPUS_MAX_BYTES", "1500")));
+  if (getenv("VERIF_CORPUS_ONLY_WIDE")) {
+    // (used once to append the classes that exist since the cost caps were lifted to the frozen corpus of C05)
+    bool wide = false;
+    for (size_t ai = 0; ai < cs.g.atts.size() && !wide; ++ai) {
+      const AttSpec &a = cs.g.atts[ai];
+      if (a.dtype == draco::DT_FLOAT32 && is_lossy(cs, static_cast<int>(ai)) && cs.o.opt_for(cs.g, static_cast<int>(ai)).qbits > 24) wide = true;
+      if (a.dtype == draco::DT_INT32 || a.dtype == draco::DT_UINT32) {
+        for (size_t k = 0; k + 4 <= a.data.size() && !wide; k += 4) {
+          int32_t v;
+          memcpy(&v, a.data.data() + k, 4);
+          if (a.dtype == draco::DT_UINT32 ? static_cast<uint32_t>(v) > (1u << 24) : (v > (1 << 24) || v < -(1 << 24))) wide = true;
+        }
+      }
+    }
+    if (!wide) return "";
+  }
   std::unique_ptr<draco::PointCloud> pc = build_geometry(cs.g);
   EncodeResult er = encode_case(cs, *pc);
   if (!er.status.ok() || er.bytes.size() > max_bytes) return "";
